@@ -1,11 +1,21 @@
 import KdVerif.Model.PyIRCs
 /-
   The IR the proofs of `Proofs/PyIRCs` were done for: a hand-written copy of what `tools/gen_pyir.py` produces
-  from `pykdebugparser/callstacks_parser.py` (same normal form as `Spec/PyIRExpected`).
-  `C15.source_is_expected_ir` states that the generated blocks ARE these terms.  Core Lean only.
+  from `pykdebugparser/callstacks_parser.py` and from `PyKdebugParser.callstacks` of `pykdebugparser/pykdebugparser.py`
+  (same normal form as `Spec/PyIRExpected`).  `C15.source_is_expected_ir` states that the generated terms ARE these.
+  Core Lean only.
 -/
 namespace KdVerif.PyIRCs.Expected
 open KdVerif.PyIRCs Expr Stmt
+
+/--
+```python
+def __init__(self, dyld_addresses, dyld_uuids):                          # parameters 0, 1
+    self.dyld_addresses = dyld_addresses
+    self.dyld_uuids = dyld_uuids
+```
+-/
+def init : InitDef := { params := 2, sets := [(.dyldAddresses, 0), (.dyldUuids, 1)] }
 
 /--
 ```python
@@ -25,12 +35,23 @@ def insertImage : Block :=
           (insert addrs (var 2) (var 0)
             (insert uuids (var 2) (var 1) (ret none)))) }
 
+/-- the body of the frame loop with `frames` = v`fs`, `frame` = v`fr`, `index_` = v`ix`:
+```python
+            index_ = bisect(self.dyld_addresses, frame) - 1
+            if index_ > -1:
+                frames.append(Frame(frame, self.dyld_uuids[index_], frame - self.dyld_addresses[index_]))
+            else:
+                frames.append(Frame(frame, None, None))
+```
+-/
+def frameBodyAt (fs fr ix : Nat) : Stmt :=
+  assign ix (sub (bisect addrs (var fr)) (int 1))
+    (ite (gt (var ix) (int (-1)))
+      (append fs (mkFrame (var fr) (index uuids (var ix)) (sub (var fr) (index addrs (var ix)))) done)
+      (append fs (mkFrame (var fr) none none) done))
+
 /-- the body of the frame loop (trace = v0, frames = v1, frame = v2, index_ = v3) -/
-def frameBody : Stmt :=
-  assign 3 (sub (bisect addrs (var 2)) (int 1))
-    (ite (gt (var 3) (int (-1)))
-      (append 1 (mkFrame (var 2) (index uuids (var 3)) (sub (var 2) (index addrs (var 3)))) done)
-      (append 1 (mkFrame (var 2) none none) done))
+def frameBody : Stmt := frameBodyAt 1 2 3
 
 /--
 ```python
@@ -49,5 +70,62 @@ for trace in generator:                                                  # trace
 def frameLoop : Block :=
   { params := 1
     body := assignNewList 1 (forIn 2 (csFrames (var 0)) frameBody (ret (var 1))) }
+
+/-- the branch of a qualifying sample (trace = v1, frames = v2, frame = v3, index_ = v4) -/
+def sampleBranch : Stmt :=
+  assignNewList 2
+    (forIn 3 (csFrames (var 1)) (frameBodyAt 2 3 4)
+      (yield (mkCallstack (timestamp (index (ktraces (var 1)) (int 0))) (tid (index (ktraces (var 1)) (int 0))) (var 2))
+        done))
+
+/-- the launch branch (trace = v1, image = v5) -/
+def launchBranch : Stmt :=
+  forIn 5 (uuidMapA (var 1)) (callInsert (loadAddr (var 5)) (uuidOf (var 5)) done) done
+
+/-- the body of `for trace in generator` -/
+def traceBody : Stmt :=
+  ite (and (isinstance (var 1) .perfEvent) (isNotNone (csFrames (var 1)))) sampleBranch
+    (ite (isinstance (var 1) .dyldUuidMapA) (callInsert (loadAddr (var 1)) (uuidOf (var 1)) done)
+      (ite (isinstance (var 1) .dyldLaunchExecutable) launchBranch done))
+
+/--
+```python
+def feed_generator(self, generator):                                     # generator = v0
+    for trace in generator:                                              # trace = v1
+        if isinstance(trace, PerfEvent) and trace.cs_frames is not None:
+            frames = []                                                  # frames = v2
+            for frame in trace.cs_frames:                                # frame = v3
+                index_ = bisect(self.dyld_addresses, frame) - 1          # index_ = v4
+                if index_ > -1:
+                    frames.append(Frame(frame, self.dyld_uuids[index_], frame - self.dyld_addresses[index_]))
+                else:
+                    frames.append(Frame(frame, None, None))
+            yield Callstack(trace.ktraces[0].timestamp, trace.ktraces[0].tid, frames)
+        elif isinstance(trace, DyldUuidMapA):
+            self.insert_image(trace.load_addr, trace.uuid)
+        elif isinstance(trace, DyldLaunchExecutable):
+            for image in trace.uuid_map_a:                               # image = v5
+                self.insert_image(image.load_addr, image.uuid)
+```
+-/
+def feedGenerator : Block :=
+  { params := 1
+    body := forIn 1 (var 0) traceBody (ret none) }
+
+/--
+```python
+def callstacks(self, kdebug: io.IOBase, trace_codes=None):               # parameters 0, 1
+    self.dyld_addresses.clear()
+    self.dyld_uuids.clear()
+    callstacks_parser = CallstacksParser(self.dyld_addresses, self.dyld_uuids)      # callstacks_parser = v2
+    return callstacks_parser.feed_generator(self.traces(kdebug, trace_codes))
+```
+-/
+def callstacks : RequestDef :=
+  { params := 2
+    defaults := [none]
+    body := .clear .objAddrs (.clear .objUuids (.newParser 2 .objAddrs .objUuids (.retFeed 2 0 1))) }
+
+def prog : Prog := { init := init, insertImage := insertImage, feedGenerator := feedGenerator, callstacks := callstacks }
 
 end KdVerif.PyIRCs.Expected
